@@ -596,6 +596,10 @@ def run_history(job: Dict[str, Any], emit, scratch: Path, tk: h5lib.Tokens, env:
                 for shape in RESERVED_SHAPES:
                     todo.append({"op": "reserved", "method": f"auto:{mname}:{k}", "required": required,
                                  "rpath": shape.format(g=g, k="a"), "p": somep})
+            # keyword forms that the signature scan does not see: copy(node, group, name=<reserved>)
+            for shape in RESERVED_SHAPES:
+                for meth in ("copy_name_kw", "move_dst", "copy_dst", "move_src", "copy_src"):
+                    todo.append({"op": "reserved", "method": meth, "rpath": shape.format(g=g, k="a"), "p": somep})
             for nm in passthrough_names(drvs[0].raw["/"]):
                 todo.append({"op": "passthrough", "method": nm, "on": "group", "p": groups[0] if groups else []})
             for nm in passthrough_names(drvs[0].raw):
